@@ -42,6 +42,22 @@ func m(kv map[string]vals.V) vals.V { return vals.Map(kv) }
 // style merges, class objects): the subjects of the nondeterminism probe.
 const hazard = "hazard"
 
+// twin builds a near-twin program whose string literals hold the blank run sp.
+func twin(name, canary, sp string) cat.Program {
+	ny := "'New" + sp + "York'"
+	sep := "'" + sp + "'"
+	page := `<p>{{ city == ` + ny + ` ? 'match' : 'nomatch' }} [{{ a + ` + sep + ` + b }}] {{ who }} {{ sep == ` + sep + ` ? 'sep1' : 'sepN' }}</p>` +
+		`<b v-if="city == ` + ny + `">in</b><b v-else>out</b><i v-show="sep == ` + sep + `">shown</i>` +
+		`<em v-if="city != ` + ny + `">other</em><em v-else-if="a + ` + sep + ` + b == 'left right'">joined1</em><em v-else>joinedN</em>` +
+		`<a :title="a + ` + sep + ` + b" :data-c="city == ` + ny + `" :data-j="who + ` + sep + ` + city">t</a>` +
+		`<p :class="{hit: city == ` + ny + `, miss: city != ` + ny + `, one: sep == ` + sep + `}" :style="{content: a + ` + sep + ` + b, quotes: city == ` + ny + `}">c</p>` +
+		`<ul><li v-for="r in rows" :data-k="r + ` + sep + ` + a"><span v-if="r == ` + ny + `">eq</span><span v-else>ne</span>{{ r + ` + sep + ` + b }}</li></ul>` + end
+	return cat.Program{Name: name, Canary: canary, Feat: []string{"near-twin", "expr"},
+		Files: map[string]string{"page.vuego": page},
+		Data: map[string]vals.V{"who": s(canary), "city": s("New York"), "a": s("left"), "b": s("right"), "sep": s(" "),
+			"rows": strs("New York", "New  York", "x")}}
+}
+
 func local() []cat.Program {
 	ps := []cat.Program{
 		{Name: "x-multi-bound", Canary: "xmbWHO", Feat: []string{hazard, "multi-bound"},
@@ -147,6 +163,14 @@ func local() []cat.Program {
 		{Name: "x-leak-probe-loop", Canary: "xllWHO", Feat: []string{"leak-probe", "v-for"},
 			Files: map[string]string{"page.vuego": `<div v-for="(a, row) in grid"><span v-for="(c, cell) in row" :data-i="i" :data-x="x">{{ a }}{{ c }}={{ cell }}{{ r }}{{ item }}{{ role }}{{ t }}{{ it }}{{ mi }}{{ x }}</span>{{ c }}{{ cell }}</div><p>{{ a }}{{ row }}{{ who }}</p>` + end},
 			Data:  map[string]vals.V{"who": s("xllWHO"), "grid": anys(strs("g1", "g2"), strs("g3"), strs("g4", "g5", "g6"))}},
+
+		// near-twin programs: the same template text except for the number of blanks INSIDE string
+		// literals of expressions ({{ }}, v-if, v-show, :attr, :class / :style objects). On one engine
+		// (shared histories) they meet in both orders; anything that identifies expressions more
+		// coarsely than by their exact text (a normalised cache key) gives one of them the other's result.
+		twin("x-twin-a", "xtaWHO", " "),
+		twin("x-twin-b", "xtbWHO", "  "),
+		twin("x-twin-c", "xtcWHO", "   "),
 
 		// ---- failing programs
 		{Name: "x-fail-deep", Fails: true, Canary: "xfdWHO", Feat: []string{"fail", "include", "slot", "loop"},
